@@ -23,6 +23,7 @@ import (
 	"os"
 	"strconv"
 	"strings"
+	"sync/atomic"
 	"testing"
 	"testing/synctest"
 	"time"
@@ -51,8 +52,35 @@ func splitmix(base, idx uint64) uint64 {
 	return z ^ (z >> 31)
 }
 
+// the run in progress, for the real-time watchdog
+var (
+	runStarted atomic.Int64
+	runSeed    atomic.Uint64
+)
+
+// startRunWatchdog ends the process when one run burns more real time than
+// VERIF_RUN_TIMEOUT seconds (default 60): the runner counts that as harness
+// trouble and carries on after the seed. Runs are fake-clock simulations; one
+// that needs a minute of CPU has degenerated (e.g. a relay storm between
+// simulated nodes) and would otherwise hold its worker until the batch budget.
+func startRunWatchdog() {
+	limit := envInt("VERIF_RUN_TIMEOUT", 60)
+	go func() {
+		for {
+			time.Sleep(time.Second)
+			if st := runStarted.Load(); st != 0 && time.Now().Unix()-st > limit {
+				fmt.Fprintf(os.Stderr, "WATCHDOG: the run of seed %d exceeded %d s of real time\n", runSeed.Load(), limit)
+				os.Exit(3)
+			}
+		}
+	}()
+}
+
 // runOnce executes one run inside a fresh synctest bubble.
 func runOnce(t *testing.T, p *props.Prop, env *sim.Env) (rec sim.Record) {
+	runSeed.Store(env.Seed)
+	runStarted.Store(time.Now().Unix())
+	defer runStarted.Store(0)
 	wallStart := time.Now() // real clock: we are outside the bubble
 	done := false
 	func() {
@@ -109,6 +137,7 @@ func TestWorker(t *testing.T) {
 		out.Flush()
 	}
 	verbose := os.Getenv("VERIF_VERBOSE") == "1"
+	startRunWatchdog()
 
 	if rf := os.Getenv("VERIF_REPLAY"); rf != "" {
 		data, err := os.ReadFile(rf)
